@@ -1122,6 +1122,130 @@ static void prop_c17(const vf::Case& c, Ctx& ctx)
         VF_CHECK(!inconsistent, ctx.describe << ": verify() rejects a library whose structure is unchanged (" << fam << kind << "): " << what);
 }
 
+// ---- C17, enumerated: every structural element x every applicable mutation kind (no randomness).
+// The element lists are read once per process from a pristine library of each schema with exactly the queries prop_c17 uses, so the
+// tuple (schema, file, kind, first pick, second pick) reproduces one specific mutation when it is fed to prop_c17 as its choices.
+struct C17Tuple
+{
+    uint64_t schema, file, kind, pick1, pick2;
+};
+static std::vector<C17Tuple> c17_build_enum(bool all_kinds)
+{
+    std::vector<C17Tuple> out;
+    auto kind_idx = [&](const std::string& k) -> uint64_t {
+        auto& ks = mutation_kinds();
+        return static_cast<uint64_t>(std::find(ks.begin(), ks.end(), k) - ks.begin());
+    };
+    // quick tier: whole-element kinds for every table / view / index, and the three column kinds that need no precondition
+    std::set<std::string> wanted = {"drop-table", "rename-table", "add-table", "drop-view", "rename-view", "add-view", "drop-index", "flip-unique",
+                                    "drop-column", "rename-column", "change-type"};
+    auto want = [&](const std::string& k) { return all_kinds || wanted.count(k); };
+    for (uint64_t si = 0; si < schemas_ext().size(); ++si)
+    {
+        auto schema = schemas_ext()[si];
+        bool v2 = is_v2(schema);
+        ScratchDir sd;
+        std::string dir = sd.lib();
+        {
+            auto db = e::create_database(dir, schema);
+        }
+        std::vector<std::string> files = v2 ? std::vector<std::string>{dir + "/Database2/m.db"} : std::vector<std::string>{dir + "/m.db", dir + "/p.db"};
+        for (uint64_t fi = 0; fi < files.size(); ++fi)
+        {
+            RawDb db(files[fi], false);
+            auto tables = rows(db.db, "SELECT name FROM sqlite_master WHERE type='table' AND name NOT LIKE 'sqlite_%' ORDER BY name");
+            auto views = rows(db.db, "SELECT name, sql FROM sqlite_master WHERE type='view' ORDER BY name");
+            auto indices = rows(db.db, "SELECT name, tbl_name, sql FROM sqlite_master WHERE type='index' AND sql IS NOT NULL ORDER BY name");
+            auto push = [&](const std::string& k, uint64_t p1, uint64_t p2) {
+                if (want(k))
+                    out.push_back({si, fi, kind_idx(k), p1, p2});
+            };
+            for (uint64_t t = 0; t < tables.size(); ++t)
+            {
+                push("drop-table", t, 0);
+                push("rename-table", t, 0);
+                push("add-column", t, 0);
+            }
+            for (uint64_t v = 0; v < views.size(); ++v)
+            {
+                push("drop-view", v, 0);
+                push("rename-view", v, 0);
+            }
+            for (uint64_t x = 0; x < indices.size(); ++x)
+            {
+                push("drop-index", x, 0);
+                push("flip-unique", x, 0);
+            }
+            push("add-table", 0, 0);
+            push("add-view", 0, 0);
+            std::vector<std::vector<std::vector<std::string>>> cols;
+            for (auto& t : tables)
+                cols.push_back(rows(db.db, "PRAGMA table_info('" + t[0] + "')"));
+            for (uint64_t t = 0; t < tables.size(); ++t)
+                for (uint64_t c = 0; c < cols[t].size(); ++c)
+                    for (const char* k : {"drop-column", "rename-column", "add-index", "change-type", "add-notnull", "add-default", "reorder-columns"})
+                        push(k, t, c);
+            // kinds with a precondition: prop_c17 first narrows the tables to those with an applicable column
+            for (const std::string k : {"drop-default", "change-default", "drop-notnull", "drop-pk"})
+            {
+                auto applies = [&](const std::vector<std::string>& cc) {
+                    if (k == "drop-default" || k == "change-default")
+                        return cc[4] != "\x01NULL";
+                    if (k == "drop-notnull")
+                        return cc[3] == "1";
+                    return cc[5] != "0";
+                };
+                uint64_t apt = 0;
+                for (uint64_t t = 0; t < tables.size(); ++t)
+                {
+                    bool any = false;
+                    for (uint64_t c = 0; c < cols[t].size(); ++c)
+                        if (applies(cols[t][c]))
+                        {
+                            push(k, apt, c);
+                            any = true;
+                        }
+                    if (any)
+                        ++apt;
+                }
+            }
+        }
+    }
+    return out;
+}
+static const std::vector<C17Tuple>& c17_enum(bool all_kinds)
+{
+    static std::vector<C17Tuple> quick, full;
+    static bool bq = false, bf = false;
+    if (all_kinds)
+    {
+        if (!bf)
+        {
+            full = c17_build_enum(true);
+            bf = true;
+        }
+        return full;
+    }
+    if (!bq)
+    {
+        quick = c17_build_enum(false);
+        bq = true;
+    }
+    return quick;
+}
+static void prop_c17_enum_impl(const vf::Case& c, Ctx& ctx, bool all_kinds)
+{
+    uint64_t i = c.empty() || c[0].empty() ? 0 : c[0][0];
+    auto& space = c17_enum(all_kinds);
+    VF_CHECK(i < space.size(), "index outside the enumeration");
+    const C17Tuple& t = space[i];
+    vf::Case inner{vf::Record{t.schema, t.file, t.kind, t.pick1, t.pick2}};
+    prop_c17(inner, ctx);
+    ctx.label("enum");
+}
+static void prop_c17_enum(const vf::Case& c, Ctx& ctx) { prop_c17_enum_impl(c, ctx, false); }
+static void prop_c17_enum_all(const vf::Case& c, Ctx& ctx) { prop_c17_enum_impl(c, ctx, true); }
+
 // enumerated: every reference dump hydrated by the library itself must pass verify() (when its version is supported)
 static void prop_c17_refs(const vf::Case& c, Ctx& ctx)
 {
@@ -1174,6 +1298,17 @@ int main(int argc, char** argv)
     add("C12.norm", prop_c12_norm, 8, 0);
     add("C13", prop_c13, 1, C13_TOTAL);
     add("C17", prop_c17, 12, 0);
+    {
+        // building the element lists creates 19 libraries: only when an enumerated C17 part (or the list of sizes) is asked for
+        bool list = argc > 1 && std::string(argv[1]) == "list", q = list, f = list;
+        for (int i = 1; i < argc; ++i)
+        {
+            q = q || std::string(argv[i]) == "C17.enum";
+            f = f || std::string(argv[i]) == "C17.enumAll";
+        }
+        add("C17.enum", prop_c17_enum, 1, q ? c17_enum(false).size() : 1);
+        add("C17.enumAll", prop_c17_enum_all, 1, f ? c17_enum(true).size() : 1);
+    }
     uint64_t nrefs = 0;
     try
     {
